@@ -606,23 +606,73 @@ def precedence_ok(line):
     return None
 
 
+def _obs_with_dump(text, o):
+    """canonical record line plus the tab-separated dump (the only place the `display` option shows)"""
+    try:
+        outcome, E, snaps = implrun.count_record(text, o)
+    except Exception as e:
+        return 'CRASH-INIT ' + type(e).__name__
+    if outcome != 'OK':
+        return outcome
+    try:
+        return implrun.canonical_line(E, snaps) + '\tDUMP ' + E.dump().replace('\n', '|')
+    except Exception as e:
+        return 'CRASH-RECORD ' + type(e).__name__
+
+
 def _immune(item):
     p, rule, cmd, file = item
-    import io, contextlib
-    base = implrun.count_line((p, dict(rule=rule)))
-    from droop.profile import ElectionProfile
-    from droop.election import Election
+    base = _obs_with_dump(gen.blt(p), dict(rule=rule))
     text = gen.blt(p)
     if file:
         lines = text.split('\n'); lines.insert(1, '[droop %s]' % ' '.join(file)); text = '\n'.join(lines)
     o = dict(cmd); o['rule'] = rule
-    other = implrun.count_line_text((text, o))
+    other = _obs_with_dump(text, o)
     return base, other
+
+
+def translator_gate(run):
+    """T2: regenerate the forced-option table of the statutory rules from the source under common.REPO (harness/gen_options.py)
+    and have the Lean kernel check `Gen.statutory = C17.modelTable` (the table `model_table_agrees` / `model_table_immune` are
+    about).  Returns the list of broken obligations."""
+    import gen_options, subprocess
+    cov = run.coverage
+    try:
+        tab = gen_options.table(common.REPO)
+    except gen_options.TranslationError as e:
+        cov['translator'] = dict(status='refused', why=str(e))
+        return ['translator harness/gen_options.py refused the source: %s' % e]
+    except Exception as e:
+        cov['translator'] = dict(status='error', why='%s: %s' % (type(e).__name__, e))
+        return ['translator harness/gen_options.py failed: %s: %s' % (type(e).__name__, e)]
+    gdir = os.path.join(common.LEAN, '.lake', 'gen')
+    os.makedirs(gdir, exist_ok=True)
+    path = os.path.join(gdir, 'Statutory_%d.lean' % os.getpid())
+    open(path, 'w').write(gen_options.lean_file(tab))
+    try:
+        r = subprocess.run(['lake', 'env', 'lean', path], cwd=common.LEAN, capture_output=True, text=True, timeout=600)
+        out = r.stdout + r.stderr
+    finally:
+        try: os.remove(path)
+        except OSError: pass
+    ok = r.returncode == 0 and 'error' not in out.lower()
+    axioms_ok = all(set(a.strip() for a in m.split(',') if a.strip()) <= common.STD_AXIOMS
+                    for m in re.findall(r"depends on axioms: \[([^\]]*)\]", out, flags=re.S))
+    cov['translator'] = dict(status='checked' if ok and axioms_ok else 'mismatch', entries=len(tab),
+                             forced=sum(1 for _, es in tab for e in es if e[2]),
+                             obligation='Gen.statutory = C17.modelTable by decide; statutory_agrees, statutory_immune instantiated',
+                             source=[m + '.py' for m in gen_options.STATUTORY])
+    if ok and axioms_ok:
+        return []
+    return ['generated table (droop/rules/*.py options()) differs from lean/Props/C17.lean modelTable: '
+            + ' '.join(l for l in out.split('\n') if 'error' in l.lower())[:300] + ' regenerated=%s' % (tab,)]
 
 
 @prop('C17')
 def C17(run):
     broken = lean_gate(run, THEOREMS['C17'])
+    if not broken:
+        broken = broken + translator_gate(run)
     rng = rng_for(run)
     cases = [gen_layers(rng) for _ in range(budget(run, 12000, 200000))]
     impl = common.pmap(opts_impl, cases, limit=10.0, chunksize=100)
